@@ -3,9 +3,9 @@
    rasteriser that received straight edges, every surface size, every position relative to the surface, both winding
    rules (theorems 1-6; _partial because they speak about the coverage mask), and end to end from DrawTarget::fill of a
    polygon with an opaque white source over a transparent surface down to the alpha of every pixel (theorems 7-9,
-   FillProofs.v).  What stays with the correspondence and the rational oracle of the C01 check: that the dot2 integers of
-   poly_segs are the quarter-grid coordinates of the vertices (f32 conversion), and the distance between the
-   fixed-point crossing and the exact crossing folded into one coverage statement (5 gives the bound). *)
+   FillProofs.v), with the f32 conversion of quarter-grid vertices exact (theorem 10, GridProofs.v).  What stays with the
+   correspondence and the rational oracle of the C01 check: the distance between the fixed-point crossing and the
+   exact crossing folded into one coverage statement (5 gives the bound). *)
 Require Import RQ.Base RQ.Rect RQ.Raster RQ.RasterProofs.
 
 (* (1) antialiased: every byte of the coverage mask is min(255,16K) or 16K-1, K = number of quarter cells of the pixel
